@@ -878,7 +878,7 @@ class Summary(object):
             return
         # attribute / subscript store
         for tg, tn in self.alts(target, env, pc):
-            for g, n in self.alts(value, env, pc):
+            for g, n in _split_ifexp(self, self.alts(value, env, pc), env, pc):
                 self.emit('aug' if aug else 'store', _unparse(tn), _unparse(n), conj(pc, tg, g), node, fr, vnode=n)
 
     def assign_g(self, target, valnode, env, pc, fr, node):
